@@ -1,0 +1,12 @@
+//go:build verif
+
+package cache
+
+// VerifSetNow replaces the package clock (unix seconds) used by the TTL caches and
+// returns a function restoring the previous one (build tag "verif"). Call it only while
+// no cache operation is in flight.
+func VerifSetNow(f func() int64) (restore func()) {
+	var old = now
+	now = f
+	return func() { now = old }
+}
